@@ -397,6 +397,9 @@ async def tee_peer(
                         # item already.
                         for peer_buffer in peers:
                             peer_buffer.append(item)
+                        # Do not keep the item or the buffer of a peer alive that may
+                        # be closed long before we fetch the next item.
+                        del item, peer_buffer
             yield buffer.popleft()
     finally:
         # this peer is done – remove its buffer
